@@ -301,6 +301,9 @@ fn frontends(ctx: &Ctx, acc: &mut Acc, a: &mcx::alpha::Alphabet) {
         }
         i += 1;
     }
+    // every list also newest-first (a list is a list: no front-end may reorder it)
+    let reversed: Vec<Vec<Transaction>> = ledgers.iter().map(|l| l.iter().rev().cloned().collect()).collect();
+    ledgers.extend(reversed);
     let part = ledgers
         .par_iter()
         .fold(Acc::new, |mut acc, l| {
